@@ -195,6 +195,11 @@ inductive Act where
   loading): `o.db` is assigned only after `dkv.Open` returned, so the operator keeps serving — and answering
   `NeedsTable` from — the instance it had -/
   | redeployFailed (i : Nat)
+  /-- D63: an instance that was dropped inside a living process (`release`: `DB.Close` is a no-op and is not even
+  called) still has a flush or compaction in flight; the task finishes later and saves a table file under the name
+  its own numbering reserved — a name the instance reopened in the same directory may have used meanwhile. The file
+  that had this name is overwritten: its content is gone (an overwrite is a deletion). -/
+  | lateWrite (i : Nat) (t : Tbl)
 deriving Repr
 
 def setInst (s : State) (i : Nat) (x : Inst) : State := { s with insts := s.insts.set i x }
@@ -257,6 +262,9 @@ def saveDoc (s : State) (i dir : Nat) : List Nat :=
   i :: s.docs.filter fun k => match s.insts[k]? with
     | some y => y.dir != dir
     | none => true
+
+/-- the file a late background write leaves under the name `u`: same name, other content -/
+def lateName (u : Path) : Path := u ++ "'"
 
 def step (s : State) : Act → Option State
   | .openFresh range gen nbrs dir =>
@@ -351,6 +359,13 @@ def step (s : State) : Act → Option State
     match s.insts[i]? with
     | none => none
     | some x => if x.life = .alive then some s else none
+  | .lateWrite i t =>
+    match s.insts[i]? with
+    | none => none
+    | some x =>
+      if x.life = .released then
+        some { s with files := .sst (lateName t.uri) :: rmFile s.files (.sst t.uri), used := lateName t.uri :: s.used }
+      else none
 
 def run (s : State) : List Act → Option State
   | [] => some s
@@ -396,6 +411,7 @@ def inScope (s : State) : Act → Bool
   | .openFresh .. => false
   | .openFrom .. => false
   | .release _ => false
+  | .lateWrite .. => false
   | .retain i ids => retainOk s i ids
   | _ => true
 
@@ -423,7 +439,9 @@ def aliveAt (s : State) (i : Nat) : Bool :=
 /-- * an instance is opened only when no other is running — empty when the job has no checkpoint, otherwise from ONE
   checkpoint handle the job still retains;
 * every instance gets a storage directory of its own (directory number = instance number);
-* no instance is released inside a living process (D25), and a dead process runs no cleanups;
+* no instance is released inside a living process (D25) — in particular the previous instance of a directory is
+  quiesced before the directory is reopened: no background write of it lands later (D63) —, and a dead process runs
+  no cleanups;
 * the job asks an operator to drop only checkpoints it has dropped (oldest first: `jobDrop`). -/
 def inScopeL (s : State) : Act → Bool
   | .openFresh _ _ _ dir => noneAlive s && s.retained.isEmpty && dir == s.insts.length
@@ -432,6 +450,7 @@ def inScopeL (s : State) : Act → Bool
       | [w] => s.retained.any fun h => h.writer == w && h.id == id
       | _ => false)
   | .release _ => false
+  | .lateWrite .. => false
   | .retain i ids => retainOk s i ids
   | .collect i _ _ => aliveAt s i
   | _ => true
@@ -454,6 +473,7 @@ def inScopeN (s : State) : Act → Bool
   | .openFresh _ _ _ dir => dir == s.insts.length
   | .openFrom .. => false
   | .release _ => false
+  | .lateWrite .. => false
   | .retain i ids => retainOk s i ids
   | _ => true
 
